@@ -8,6 +8,12 @@ Import ListNotations.
 Lemma go_str_eqb_bstr : forall a b, go_str_eqb a b = bstr_eqb a b.
 Proof. induction a as [|x a IH]; destruct b as [|y b]; cbn; try reflexivity; f_equal; apply IH. Qed.
 
+Lemma bstr_eqb_nil : forall s, bstr_eqb s [] = is_empty s.
+Proof. destruct s; reflexivity. Qed.
+
+Lemma bstr_eqb_nil_l : forall s, bstr_eqb [] s = is_empty s.
+Proof. destruct s; reflexivity. Qed.
+
 Lemma go_len_zero_is_empty : forall (s : list N), Z.eqb (go_len s) 0 = is_empty s.
 Proof. destruct s; cbn; [reflexivity|]. unfold go_len. cbn [length]. destruct (Z.eqb_spec (Z.of_nat (S (length s))) 0); [lia | reflexivity]. Qed.
 
